@@ -126,3 +126,28 @@ def _module_container(ctx, f: FuncInfo, name: str) -> bool:
     val = getattr(node, "value", None)
     return isinstance(val, (ast.List, ast.Dict, ast.Set, ast.ListComp, ast.DictComp)) or \
         (isinstance(val, ast.Call) and norm(val.func) in ("dict", "list", "set", "defaultdict", "OrderedDict"))
+
+
+OBSERVER_DUNDERS = ("__str__", "__repr__", "__eq__", "__ne__", "__lt__", "__le__", "__gt__", "__ge__", "__hash__", "__len__",
+                    "__float__", "__int__", "__bool__", "__add__", "__radd__", "__sub__", "__rsub__", "__mul__", "__rmul__",
+                    "__truediv__", "__neg__", "__abs__", "__contains__", "__getitem__", "__format__")
+
+
+def observer_entries(ctx, modnames, properties=True, extra_names=()):
+    out = []
+    for m in modnames:
+        for f in ctx.prog.functions_in(m):
+            if f.cls is None or f.is_setter:
+                continue
+            if f.name in OBSERVER_DUNDERS or f.name in extra_names or (properties and f.is_property):
+                if f.params:
+                    out.append((f.qname, None))
+    return out
+
+
+def rule_observers_pure(ctx, modnames, label, properties=True, extra_names=(), floor=3):
+    """value semantics of the classes of a module: operators, comparisons, conversions, string forms and property getters
+    are observers — F1 with every such method as a read-only entry point (all operands)."""
+    entries = observer_entries(ctx, modnames, properties, extra_names)
+    ctx.require(len(entries) >= floor, "F1-obs", label, f"only {len(entries)} observer methods found")
+    rule_F1(ctx, entries, label, rule="F1-obs")
